@@ -22,11 +22,14 @@ void nmc_enumerate(const nmc::Tier& t, const nmc::Sink& emit) {
         for (auto& a : S56) for (auto& b : S04_3) { emit(Case("bs2", {a, b})); emit(Case("bs2", {b, a})); }
         for (size_t i = 0; i < S56.size(); i += 7) for (size_t j = 0; j < S56.size(); j += 5) emit(Case("bs2", {S56[i], S56[j]}));
     }
-    // mixed container kinds (0 list, 1 fixed array, 2 static_vector, 3 clipped array (bound 2), 4 run-time tuple, 5 clipped array (bound 3)): all pairs of S(1..3,3) (q: S(1..3,2) + extent 3 in dim<=2)
+    // mixed container kinds (0 list, 1 fixed array, 2 static_vector, 3 clipped array (bound 2), 4 run-time tuple, 5 clipped array (bound 3), 6 tuple of compile-time constants): all pairs of S(1..3,3) (q: S(1..3,2) + extent 3 in dim<=2)
     {
         std::vector<L> K; nmc::each_shape_range(1, 3, t.thorough() ? 4 : 3, [&](const L& s) { K.push_back(s); });
-        auto fits = [](int k, const L& s) { long bound = k == 3 ? 2 : (k == 5 ? 3 : 99); for (long v : s) if (v > bound) return false; return true; };   // a clipped container can only hold values up to its bound
+        auto fits = [](int k, const L& s) { long bound = k == 3 ? 2 : ((k == 5 || k == 6) ? 3 : 99); for (long v : s) if (v > bound) return false; return true; };   // a clipped container can only hold values up to its bound
         for (int ka = 0; ka < 6; ka++) for (int kb = 0; kb < 6; kb++) { if (ka == 0 && kb == 0) continue; for (auto& a : K) for (auto& b : K) if (fits(ka, a) && fits(kb, b)) emit(Case("bs2k", {{ka}, {kb}, a, b})); }
+        // kind 6 = a tuple of compile-time constants (extents <= 3): against every run-time kind, in both operand orders ("constant with dynamic" of the property text;
+        // seeded change m06c lived in the result-type selection for constant x fixed-rank run-time shapes).  constant x constant is the uniform case of C09's kind matrix.
+        for (int kb = 0; kb < 6; kb++) for (auto& a : K) for (auto& b : K) if (fits(6, a) && fits(kb, b)) { emit(Case("bs2k", {{6}, {kb}, a, b})); emit(Case("bs2k", {{kb}, {6}, b, a})); }
     }
     // element level: every (source, target) pair, compatible or not, every element index
     for (auto& s : S14_3) for (auto& d : S04_3) emit(Case("bto", {s, d}));
@@ -46,7 +49,19 @@ template <size_t D, typename F> static auto with_dim(int kind, const L& s, F&& f
     default: return f(mk_tuple(s, std::make_index_sequence<D>{}));
     }
 }
+// kind 6: the shape as a tuple of meta::ct constants, extents 1..3, dim 1..3 (values must be template arguments: a three-level switch)
+template <size_t... V> static auto ct_tuple() { return nmtools_tuple{meta::ct_v<V>...}; }
+template <size_t A, size_t B, typename F> static auto with_ct3(long c, F&& f) { switch (c) { case 1: return f(ct_tuple<A, B, 1>()); case 2: return f(ct_tuple<A, B, 2>()); default: return f(ct_tuple<A, B, 3>()); } }
+template <size_t A, typename F> static auto with_ct2(const L& s, F&& f) {
+    if (s.size() == 2) { switch (s[1]) { case 1: return f(ct_tuple<A, 1>()); case 2: return f(ct_tuple<A, 2>()); default: return f(ct_tuple<A, 3>()); } }
+    switch (s[1]) { case 1: return with_ct3<A, 1>(s[2], f); case 2: return with_ct3<A, 2>(s[2], f); default: return with_ct3<A, 3>(s[2], f); }
+}
+template <typename F> static auto with_ct(const L& s, F&& f) {
+    if (s.size() == 1) { switch (s[0]) { case 1: return f(ct_tuple<1>()); case 2: return f(ct_tuple<2>()); default: return f(ct_tuple<3>()); } }
+    switch (s[0]) { case 1: return with_ct2<1>(s, f); case 2: return with_ct2<2>(s, f); default: return with_ct2<3>(s, f); }
+}
 template <typename F> static auto with_kind(int kind, const L& s, F&& f) {
+    if (kind == 6) return with_ct(s, f);
     if (kind == 0) return f(fillc<nmtools_list<size_t>>(s));
     if (kind == 2) return f(fillc<nmtools_static_vector<size_t, 4>>(s));
     switch (s.size()) { case 1: return with_dim<1>(kind, s, f); case 2: return with_dim<2>(kind, s, f); default: return with_dim<3>(kind, s, f); }
@@ -75,7 +90,10 @@ Outcome nmc_execute(const Case& c) {
     }
     if (c.op == "bs2k") {
         auto want = ref::broadcast_shapes({c.a[2], c.a[3]});
-        std::optional<L> got = with_kind((int)c.a[0][0], c.a[2], [&](const auto& a) { return with_kind((int)c.a[1][0], c.a[3], [&](const auto& b) { return shape_of(ix::broadcast_shape(a, b)); }); });
+        std::optional<L> got = with_kind((int)c.a[0][0], c.a[2], [&](const auto& a) { return with_kind((int)c.a[1][0], c.a[3], [&](const auto& b) -> std::optional<L> {
+            // constant x constant is never enumerated here (an incompatible pair of constant shapes is rejected by the COMPILER): not instantiated
+            if constexpr (meta::is_constant_index_array_v<meta::remove_cvref_t<decltype(a)>> && meta::is_constant_index_array_v<meta::remove_cvref_t<decltype(b)>>) return std::nullopt;
+            else return shape_of(ix::broadcast_shape(a, b)); }); });
         uint64_t h = (got ? nmc::hash_vec(*got) : 17) ^ nmc::mix((uint64_t)(c.a[0][0] * 8 + c.a[1][0]));
         if (got != want) return Outcome::bad(!want ? "accepts-invalid" : (!got ? "rejects-valid" : "wrong"), "kinds " + std::to_string(c.a[0][0]) + "x" + std::to_string(c.a[1][0]) + ": broadcast_shape" + nmc::str(c.a[2]) + nmc::str(c.a[3]) + " = " + show(got) + " expected " + show(want), true, h);
         return Outcome::ok(!want || *want != c.a[2] || *want != c.a[3], h);
